@@ -1,4 +1,4 @@
-SPECIFICATION Spec
+SPECIFICATION FairSpec
 CONSTANTS
   MaxLogs = 2
   PageSizes = {1, 2}
@@ -10,9 +10,6 @@ CONSTANTS
   Mutant = "none"
   LateAccepts = FALSE
   RecordHist = FALSE
-INVARIANTS
-  TypeOK
-  InvBatchContiguous
-  InvPersistedLeAcked
-  InvLastLeAcked
-  InvNoGapEver
+PROPERTIES
+ LiveAllAccepted
+ LivePersistedCatchesUp
